@@ -94,6 +94,10 @@ Qed.
 Ltac dec_rune rest c sz Ed :=
   destruct (decode_rune rest) as [c sz] eqn:Ed.
 
+Ltac cont K :=
+  cbn; exists K; split; [lia|]; split; [lia|]; split; [f_equal; lia|];
+  auto using st_ok_emit, st_ok_report with arith.
+
 Lemma string_step_ok q pos rest st : st_ok (pos + length rest) st ->
   step_ok q pos rest st (string_step q pos rest st).
 Proof.
@@ -101,76 +105,282 @@ Proof.
   rewrite <- Erest in *. assert (Hne : rest <> []) by (rewrite Erest; discriminate).
   destruct (decode_rune rest) as [c sz] eqn:Ed.
   pose proof (decode_size rest c sz Hne Ed) as Hsz.
-  set (hi := pos + length rest) in *.
-  assert (Hcont : forall k st', 1 <= k <= length rest -> st_ok hi st' ->
-            step_ok q pos rest st (SCont (pos + k) (skipn k rest) st')).
-  { intros k st' Hk Hs. cbn. exists k. auto. }
-  assert (Hrep : forall p, p <= hi -> st_ok hi (report st (Z.of_nat p))) by (intros; apply st_ok_report; assumption).
-  assert (Hpos : pos <= hi) by (unfold hi; lia).
+  assert (Hrep : st_ok (pos + length rest) (report st (Z.of_nat pos))) by (apply st_ok_report; [assumption|lia]).
   destruct (c =? 10)%N; [exact Hst|].
   destruct (c =? q)%N; [cbn; exists sz; auto|].
-  destruct (c =? 0)%N; [apply Hcont; auto|].
-  destruct (negb (c =? 92)%N); [apply Hcont; [assumption|apply st_ok_emit; assumption]|].
+  destruct (c =? 0)%N; [cont sz|].
+  destruct (negb (c =? 92)%N); [cont sz|].
   destruct (skipn sz rest) as [|b1 r1] eqn:Er1; [exact Hst|].
   rewrite <- Er1 in *. assert (Hne1 : skipn sz rest <> []) by (rewrite Er1; discriminate).
   destruct (decode_rune (skipn sz rest)) as [e esz] eqn:Ed1.
   pose proof (decode_size _ e esz Hne1 Ed1) as Hesz. rewrite skipn_length in Hesz.
   rewrite !skipn_skipn_N.
-  (* a continuation after consuming sz + esz + extra bytes *)
-  assert (Hcont2 : forall extra st', sz + esz + extra <= length rest -> st_ok hi st' ->
-            step_ok q pos rest st (SCont (pos + sz + esz + extra) (skipn (sz + esz + extra) rest) st')).
-  { intros extra st' Hk Hs. cbn. exists (sz + esz + extra). repeat split; auto; lia. }
   destruct ((e =? 120)%N || (e =? 88)%N).
   { destruct (skipn (sz + esz) rest) as [|b2 r2] eqn:Er2; [exact Hst|].
     rewrite <- Er2 in *. assert (Hne2 : skipn (sz + esz) rest <> []) by (rewrite Er2; discriminate).
     destruct (decode_rune (skipn (sz + esz) rest)) as [c1 sz1] eqn:Ed2.
     pose proof (decode_size _ c1 sz1 Hne2 Ed2) as Hsz1. rewrite skipn_length in Hsz1.
-    destruct ((c1 =? q)%N || (c1 =? 92)%N).
-    { replace (pos + sz + esz) with (pos + sz + esz + 0) by lia.
-      replace (sz + esz) with (sz + esz + 0) at 2 by lia. apply Hcont2; [lia|auto]. }
+    destruct ((c1 =? q)%N || (c1 =? 92)%N); [cont (sz + esz)|].
     rewrite !skipn_skipn_N.
     destruct (skipn (sz + esz + sz1) rest) as [|b3 r3] eqn:Er3; [exact Hst|].
     rewrite <- Er3 in *. assert (Hne3 : skipn (sz + esz + sz1) rest <> []) by (rewrite Er3; discriminate).
     destruct (decode_rune (skipn (sz + esz + sz1) rest)) as [c2 sz2] eqn:Ed3.
     pose proof (decode_size _ c2 sz2 Hne3 Ed3) as Hsz2. rewrite skipn_length in Hsz2.
     destruct (is_hexdigit c2).
-    - rewrite !skipn_skipn_N.
-      replace (pos + sz + esz + sz1 + sz2) with (pos + sz + esz + (sz1 + sz2)) by lia.
-      replace (sz + esz + sz1 + sz2) with (sz + esz + (sz1 + sz2)) by lia.
-      destruct (parse_uint16_32 [c1; c2]); apply Hcont2; try lia; auto using st_ok_emit.
-    - destruct (parse_uint16_32 [c1]); apply Hcont2; try lia; auto using st_ok_emit. }
+    - rewrite !skipn_skipn_N. destruct (parse_uint16_32 [c1; c2]); cont (sz + esz + sz1 + sz2).
+    - destruct (parse_uint16_32 [c1]); cont (sz + esz + sz1). }
   destruct (is_octdigit e).
   { destruct (skipn (sz + esz) rest) as [|b2 r2] eqn:Er2; [exact Hst|].
     rewrite <- Er2 in *. assert (Hne2 : skipn (sz + esz) rest <> []) by (rewrite Er2; discriminate).
     destruct (decode_rune (skipn (sz + esz) rest)) as [c2 sz2] eqn:Ed2.
     pose proof (decode_size _ c2 sz2 Hne2 Ed2) as Hsz2. rewrite skipn_length in Hsz2.
-    destruct (negb (is_octdigit c2)).
-    { replace (pos + sz + esz) with (pos + sz + esz + 0) by lia.
-      replace (sz + esz) with (sz + esz + 0) at 2 by lia. apply Hcont2; [lia|auto using st_ok_emit]. }
+    destruct (negb (is_octdigit c2)); [cont (sz + esz)|].
     rewrite !skipn_skipn_N.
     destruct (skipn (sz + esz + sz2) rest) as [|b3 r3] eqn:Er3; [exact Hst|].
     rewrite <- Er3 in *. assert (Hne3 : skipn (sz + esz + sz2) rest <> []) by (rewrite Er3; discriminate).
     destruct (decode_rune (skipn (sz + esz + sz2) rest)) as [c3 sz3] eqn:Ed3.
     pose proof (decode_size _ c3 sz3 Hne3 Ed3) as Hsz3. rewrite skipn_length in Hsz3.
-    destruct (negb (is_octdigit c3)).
-    { apply Hcont2; [lia|auto using st_ok_emit]. }
+    destruct (negb (is_octdigit c3)); [cont (sz + esz + sz2)|].
     rewrite !skipn_skipn_N.
-    replace (pos + sz + esz + sz2 + sz3) with (pos + sz + esz + (sz2 + sz3)) by lia.
-    replace (sz + esz + sz2 + sz3) with (sz + esz + (sz2 + sz3)) by lia.
-    destruct (255 <? digits_val 8 [e; c2; c3])%N; apply Hcont2; try lia; auto using st_ok_emit. }
+    destruct (255 <? digits_val 8 [e; c2; c3])%N; cont (sz + esz + sz2 + sz3). }
   destruct (e =? 117)%N.
   { destruct (read_uni 4 q (skipn (sz + esz) rest)) as [[[rs n] full]|] eqn:Eu; [|exact Hst].
     pose proof (read_uni_le _ _ _ _ _ _ Eu) as Hn. rewrite skipn_length in Hn.
     rewrite !skipn_skipn_N.
-    destruct (negb full); [apply Hcont2; [lia|auto]|].
-    destruct (parse_uint16_32 rs); apply Hcont2; try lia; auto using st_ok_emit. }
+    destruct (negb full); [cont (sz + esz + n)|].
+    destruct (parse_uint16_32 rs); cont (sz + esz + n). }
   destruct (e =? 85)%N.
   { destruct (read_uni 8 q (skipn (sz + esz) rest)) as [[[rs n] full]|] eqn:Eu; [|exact Hst].
     pose proof (read_uni_le _ _ _ _ _ _ Eu) as Hn. rewrite skipn_length in Hn.
     rewrite !skipn_skipn_N.
-    destruct (negb full); [apply Hcont2; [lia|auto]|].
-    destruct (parse_uint16_32 rs) as [i|]; [destruct (1114111 <? i)%N|]; apply Hcont2; try lia; auto using st_ok_emit. }
-  replace (pos + sz + esz) with (pos + sz + esz + 0) by lia.
-  replace (sz + esz) with (sz + esz + 0) at 1 by lia.
-  destruct (simple_esc e); apply Hcont2; try lia; auto using st_ok_emit.
+    destruct (negb full); [cont (sz + esz + n)|].
+    destruct (parse_uint16_32 rs) as [i|]; [destruct (1114111 <? i)%N|]; cont (sz + esz + n). }
+  destruct (simple_esc e); cont (sz + esz).
 Qed.
+
+Definition sres_ok (pos : nat) (rest : list N) (r : sres) : Prop :=
+  let hi := pos + length rest in
+  match r with
+  | SDone endpos st' => exists k, 1 <= k <= length rest /\ endpos = pos + k /\ st_ok hi st'
+  | SEof st' | SNewline st' => st_ok hi st'
+  | SFuel => False
+  end.
+
+Lemma scan_string_ok q : forall fuel pos rest st, length rest < fuel -> st_ok (pos + length rest) st ->
+  sres_ok pos rest (scan_string fuel q pos rest st).
+Proof.
+  induction fuel as [|fuel IH]; intros pos rest st Hf Hst; [lia|].
+  cbn [scan_string]. pose proof (string_step_ok q pos rest st Hst) as Hs.
+  destruct (string_step q pos rest st) as [r|pos' rest' st'].
+  - destruct r; cbn in *; assumption.
+  - cbn in Hs. destruct Hs as (k & Hk & -> & -> & Hst').
+    assert (Hl : length (skipn k rest) = length rest - k) by apply skipn_length.
+    assert (Hhi : pos + k + length (skipn k rest) = pos + length rest) by lia.
+    specialize (IH (pos + k) (skipn k rest) st' ltac:(lia) ltac:(rewrite Hhi; exact Hst')).
+    unfold sres_ok in *. rewrite Hhi in IH.
+    destruct (scan_string fuel q (pos + k) (skipn k rest) st') as [endpos st2|st2|st2|]; try assumption.
+    destruct IH as (k2 & Hk2 & -> & Hst2). exists (k + k2). split; [lia|]. split; [lia|assumption].
+Qed.
+
+(* ---- one dispatch ---- *)
+Definition errs_in (hi : nat) (es : errs) : Prop :=
+  es <> [] /\ forall e z, In (e, z) es -> (0 <= z <= Z.of_nat hi)%Z.
+
+Definition dres_ok (pos : nat) (rest : list N) (r : dres) : Prop :=
+  match r with
+  | DItem it => i_off it = pos /\ 1 <= i_len it <= length rest
+  | DErr es => errs_in (pos + length rest) es
+  end.
+
+Lemma errs_in_single hi e p : p <= hi -> errs_in hi [(e, Z.of_nat p)].
+Proof.
+  intros Hp. split; [discriminate|]. intros e' z [H|[]]. inversion H. lia.
+Qed.
+
+Lemma errs_in_map hi (l : list Z) tail :
+  (forall z, In z l -> (0 <= z <= Z.of_nat hi)%Z) ->
+  (forall e z, In (e, z) tail -> (0 <= z <= Z.of_nat hi)%Z) ->
+  (l <> [] \/ tail <> []) ->
+  errs_in hi (map (fun z => (EStringEscape, z)) l ++ tail).
+Proof.
+  intros Hl Ht Hne. split.
+  - destruct Hne as [Hne|Hne]; destruct l; cbn; try discriminate; try congruence.
+  - intros e z Hin. apply in_app_or in Hin. destruct Hin as [Hin|Hin]; [|eauto].
+    apply in_map_iff in Hin. destruct Hin as (z' & Heq & Hz'). inversion Heq; subst. auto.
+Qed.
+
+Lemma dispatch_ok pos rest : rest <> [] -> dres_ok pos rest (dispatch pos rest).
+Proof.
+  intros Hne. unfold dispatch.
+  destruct (decode_rune rest) as [c sz] eqn:Ed.
+  pose proof (decode_size rest c sz Hne Ed) as Hsz.
+  assert (Hl1 : length (skipn sz rest) = length rest - sz) by apply skipn_length.
+  assert (Herr : forall e, dres_ok pos rest (DErr [(e, Z.of_nat pos)])).
+  { intros e. cbn. apply errs_in_single. lia. }
+  destruct (c =? 46)%N.
+  { destruct (skipn sz rest) as [|d r2] eqn:Er; [cbn; lia|].
+    destruct (is_digit d); [|cbn; lia].
+    pose proof (read_number_le r2 false) as Hrn. cbn in Hl1.
+    destruct (float_syntax_ok (firstn (2 + read_number r2 false) rest)); [|apply Herr].
+    cbn. split; [reflexivity|]. lia. }
+  destruct (is_ident_start c).
+  { pose proof (span_le is_ident_char (skipn sz rest)). cbn. lia. }
+  destruct (is_digit c).
+  { pose proof (read_number_le (skipn sz rest) false).
+    destruct (classify_number (firstn (1 + read_number (skipn sz rest) false) rest)); [cbn; lia|apply Herr]. }
+  destruct ((c =? 39)%N || (c =? 34)%N).
+  { set (st0 := {| s_buf := []; s_pend := None; s_flushed := [] |}).
+    assert (Hst0 : st_ok (pos + 1 + length (skipn sz rest)) st0).
+    { split; cbn; [discriminate|intros z []]. }
+    pose proof (scan_string_ok c (S (length (skipn sz rest))) (pos + 1) (skipn sz rest) st0 ltac:(lia) Hst0) as Hs.
+    unfold sres_ok in Hs.
+    assert (Hhi : forall z, (0 <= z <= Z.of_nat (pos + 1 + length (skipn sz rest)))%Z ->
+                            (0 <= z <= Z.of_nat (pos + length rest))%Z) by (intros; lia).
+    destruct (scan_string (S (length (skipn sz rest))) c (pos + 1) (skipn sz rest) st0) as [endpos st|st|st|].
+    - destruct Hs as (k & Hk & -> & [Hp Hf]). destruct (s_pend st) as [p|] eqn:Ep.
+      + cbn. rewrite <- (app_nil_r (map _ _)). apply errs_in_map.
+        * intros z Hz. apply Hhi. apply in_app_or in Hz. destruct Hz as [Hz|[<-|[]]]; auto.
+        * intros e z [].
+        * left. destruct (s_flushed st); discriminate.
+      + cbn. split; [reflexivity|]. lia.
+    - destruct Hs as [Hp Hf]. cbn. apply errs_in_map.
+      + intros z Hz. apply Hhi. auto.
+      + intros e z [H|[]]. inversion H. lia.
+      + right. discriminate.
+    - destruct Hs as [Hp Hf]. cbn. apply errs_in_map.
+      + intros z Hz. apply Hhi. auto.
+      + intros e z [H|[]]. inversion H. lia.
+      + right. discriminate.
+    - destruct Hs. }
+  destruct (c =? 47)%N.
+  { destruct (skipn sz rest) as [|d r2] eqn:Er; [cbn; lia|]. cbn in Hl1.
+    destruct (d =? 47)%N.
+    - destruct (scan_line_comment r2) as [n| |] eqn:Ec; try apply Herr.
+      apply scan_line_comment_le in Ec. cbn. lia.
+    - destruct (d =? 42)%N; [|cbn; lia].
+      destruct (scan_block_comment r2) as [n| |] eqn:Ec; try apply Herr.
+      apply scan_block_comment_le in Ec. cbn. lia. }
+  destruct ((c <? 32)%N || (c =? 127)%N); [apply Herr|].
+  destruct (negb (is_punct c)); [apply Herr|]. cbn. lia.
+Qed.
+
+(* ---- the main loop ---- *)
+(* the input from offset pos on is: whitespace, an item, whitespace, an item, ..., the EOF token *)
+Inductive Tiles : nat -> list N -> list item -> Prop :=
+| T_eof pos : Tiles pos [] [mk (IToken TEof) pos 0]
+| T_ws pos c r l : is_ws c = true -> Tiles (S pos) r l -> Tiles pos (c :: r) l
+| T_item pos rest it l : i_off it = pos -> 1 <= i_len it <= length rest ->
+    Tiles (pos + i_len it) (skipn (i_len it) rest) l -> Tiles pos rest (it :: l).
+
+Definition lres_ok (pos : nat) (rest : list N) (acc : list item) (r : lres) : Prop :=
+  match r with
+  | LDone items => exists new, items = rev acc ++ new /\ Tiles pos rest new
+  | LFail items es => errs_in (pos + length rest) es
+  | LFuel => False
+  end.
+
+Lemma lex_loop_ok : forall fuel pos rest acc, length rest < fuel ->
+  lres_ok pos rest acc (lex_loop fuel pos rest acc).
+Proof.
+  induction fuel as [|fuel IH]; intros pos rest acc Hf; [lia|].
+  cbn [lex_loop]. destruct rest as [|c r].
+  - cbn. exists [mk (IToken TEof) pos 0]. split; [reflexivity|constructor].
+  - destruct (is_ws c) eqn:Ews.
+    + specialize (IH (S pos) r acc ltac:(cbn in Hf; lia)).
+      destruct (lex_loop fuel (S pos) r acc) as [items|items es|]; cbn [lres_ok] in *.
+      * destruct IH as (new & -> & Ht). exists new. split; [reflexivity|]. constructor; assumption.
+      * assert (E : S pos + length r = pos + length (c :: r)) by (cbn [length]; lia).
+        rewrite <- E. exact IH.
+      * assumption.
+    + pose proof (dispatch_ok pos (c :: r) ltac:(discriminate)) as Hd.
+      destruct (dispatch pos (c :: r)) as [it|es].
+      * destruct Hd as [Hoff Hlen].
+        assert (Hl : length (skipn (i_len it) (c :: r)) = length (c :: r) - i_len it) by apply skipn_length.
+        specialize (IH (pos + i_len it) (skipn (i_len it) (c :: r)) (it :: acc) ltac:(lia)).
+        destruct (lex_loop fuel (pos + i_len it) (skipn (i_len it) (c :: r)) (it :: acc)) as [items|items es|];
+          cbn [lres_ok] in *.
+        -- destruct IH as (new & -> & Ht). exists (it :: new). split.
+           ++ cbn [rev]. rewrite <- app_assoc. reflexivity.
+           ++ apply T_item; assumption.
+        -- assert (E : pos + i_len it + length (skipn (i_len it) (c :: r)) = pos + length (c :: r)) by lia.
+           rewrite <- E. exact IH.
+        -- assumption.
+      * exact Hd.
+Qed.
+
+(* C12: the lexer model never runs out of fuel, on any byte string *)
+Theorem lex_total_lemma : forall data, lex data <> LFuel.
+Proof.
+  intros data. unfold lex. pose proof (lex_loop_ok (S (length (strip_bom data))) 0 (strip_bom data) [] ltac:(lia)) as H.
+  destruct (lex_loop _ _ _ _); cbn in H; [discriminate|discriminate|contradiction].
+Qed.
+
+(* C11 (lexer side): an accepted input is tiled by its items *)
+Theorem lex_tiles_lemma : forall data items, lex data = LDone items -> Tiles 0 (strip_bom data) items.
+Proof.
+  intros data items H. unfold lex in H.
+  pose proof (lex_loop_ok (S (length (strip_bom data))) 0 (strip_bom data) [] ltac:(lia)) as Hok.
+  rewrite H in Hok. cbn in Hok. destruct Hok as (new & -> & Ht). exact Ht.
+Qed.
+
+(* C12: when the lexer fails it reports at least one error and every reported offset is inside the file *)
+Theorem lex_error_positions_lemma : forall data items es, lex data = LFail items es ->
+  es <> [] /\ forall e z, In (e, z) es -> (0 <= z <= Z.of_nat (length (strip_bom data)))%Z.
+Proof.
+  intros data items es H. unfold lex in H.
+  pose proof (lex_loop_ok (S (length (strip_bom data))) 0 (strip_bom data) [] ltac:(lia)) as Hok.
+  rewrite H in Hok. exact Hok.
+Qed.
+
+
+(* what tiling means for the bytes: the input is the concatenation, item after item, of a run of
+   whitespace followed by the item's raw text, the offsets of the items are exactly the positions
+   where their raw text starts, and the last item is the (empty) EOF token, whose leading
+   whitespace is the trailing whitespace of the file *)
+Fixpoint chunks_ok (pos : nat) (cs : list (list N * list N)) (l : list item) : Prop :=
+  match cs, l with
+  | [], [] => True
+  | (w, raw) :: cs', it :: l' =>
+    forallb is_ws w = true /\ i_off it = pos + length w /\ i_len it = length raw /\
+    chunks_ok (pos + length w + length raw) cs' l'
+  | _, _ => False
+  end.
+
+Definition flatten_chunks (cs : list (list N * list N)) : list N :=
+  concat (map (fun p => fst p ++ snd p) cs).
+
+Lemma tiles_nonempty pos rest l : Tiles pos rest l -> l <> [].
+Proof. induction 1; congruence. Qed.
+
+Theorem tiles_rebuild_lemma pos rest l : Tiles pos rest l ->
+  exists cs, chunks_ok pos cs l /\ rest = flatten_chunks cs /\
+             exists e, last l e = mk (IToken TEof) (pos + length rest) 0.
+Proof.
+  induction 1 as [pos|pos c r l Hws Ht IH|pos rest it l Hoff Hlen Ht IH].
+  - exists [([], [])]. cbn. rewrite !Nat.add_0_r. split; [auto|]. split; [reflexivity|]. exists (mk (IToken TEof) pos 0). reflexivity.
+  - destruct IH as (cs & Hc & Hr & e & He). pose proof (tiles_nonempty _ _ _ Ht) as Hne.
+    destruct l as [|it l]; [congruence|]. destruct cs as [|[w raw] cs]; [destruct Hc|].
+    destruct Hc as (Hw & Ho & Hl & Hc).
+    exists ((c :: w, raw) :: cs). split; [|split].
+    + cbn [chunks_ok length forallb]. rewrite Hws, Hw. repeat split; auto; try lia.
+      replace (pos + S (length w) + length raw) with (S pos + length w + length raw) by lia. exact Hc.
+    + unfold flatten_chunks in *. cbn in *. rewrite Hr. reflexivity.
+    + exists e. rewrite He. f_equal. cbn [length]. lia.
+  - destruct IH as (cs & Hc & Hr & e & He).
+    assert (Hsplit : rest = firstn (i_len it) rest ++ skipn (i_len it) rest) by (symmetry; apply firstn_skipn).
+    assert (Hfl : length (firstn (i_len it) rest) = i_len it) by (apply firstn_length_le; lia).
+    exists (([], firstn (i_len it) rest) :: cs). split; [|split].
+    + cbn [chunks_ok length forallb]. rewrite Hfl. repeat split; auto; try lia.
+      rewrite Nat.add_0_r. exact Hc.
+    + unfold flatten_chunks in *. cbn [map concat fst snd app]. rewrite <- Hr. exact Hsplit.
+    + exists e. pose proof (tiles_nonempty _ _ _ Ht) as Hne. destruct l as [|i2 l]; [congruence|].
+      change (last (it :: i2 :: l) e) with (last (i2 :: l) e). rewrite He. f_equal.
+      rewrite skipn_length. lia.
+Qed.
+
+(* non-vacuity: a small accepted input and its items *)
+Example lex_example :
+  lex [109; 32; 47; 42; 120; 42; 47; 10; 34; 92; 110; 34; 59]%N =
+  LDone [mk (IToken TName) 0 1; mk (IComment true) 2 5; mk (IToken (TStr [10%N])) 8 4;
+         mk (IToken (TRune 59%N)) 12 1; mk (IToken TEof) 13 0].
+Proof. vm_compute. reflexivity. Qed.
